@@ -26,7 +26,7 @@ cfg    == CfgSeq[cid]
 ASSUME PrintT(<<"CONFIGS", ToJson(CfgSeq)>>)
 
 Init == /\ cid \in 1..Len(CfgSeq)
-        /\ s = SInit(CfgSeq[cid])
+        /\ \E md \in Modes : s = IF CfgSeq[cid].hooks THEN SInitM(CfgSeq[cid], md) ELSE SInit(CfgSeq[cid])
         /\ ev = [e |-> "start"]
         /\ hist = <<>>
         /\ mon = Mon!MInit
@@ -63,7 +63,7 @@ Inf == 1000
 NoLim == [k \in Classes |-> None]
 Base == [maxAtt |-> 3, lim |-> NoLim, maxUnk |-> None, D |-> Inf, hasDefault |-> TRUE,
          strat |-> {}, legacy |-> {}, budget |-> None, bW |-> 100000, handler |-> FALSE, abort |-> FALSE,
-         rc |-> FALSE, bsleep |-> FALSE, opname |-> TRUE]
+         rc |-> FALSE, bsleep |-> FALSE, opname |-> TRUE, hooks |-> FALSE]
 
 Val(n) == [kind |-> "val", v |-> n]
 Out(o, k, ra) == [out |-> o, k |-> k, ra |-> ra]
@@ -180,7 +180,8 @@ ConfigsC12 ==
 ConfigsC12x ==
     { [Base EXCEPT !.maxAtt = 2, !.rc = TRUE, !.maxUnk = 1, !.D = d,
                    !.lim = [NoLim EXCEPT ![T] = 1], !.hasDefault = st[1], !.strat = st[2],
-                   !.legacy = st[3], !.budget = bu, !.handler = ha, !.bsleep = ha, !.abort = ab] :
+                   !.legacy = st[3], !.budget = bu, !.handler = ha, !.bsleep = ha, !.abort = ab,
+                   !.hooks = ha] :
         d \in {3, Inf}, st \in {<<TRUE, {}, {}>>, <<FALSE, {T, U, P}, {U}>>, <<FALSE, {}, {}>>},
         bu \in {1}, ha \in BOOLEAN, ab \in BOOLEAN }
 OutsC12x == {OkOut, Out("exc", T, None), Out("res", R, 2), Out("exc", U, None)}
@@ -207,8 +208,8 @@ OutsC13 == {OkOut, Out("exc", T, None), Out("res", T, None), Out("abort", "-", N
             Out("nested", "-", None)}
 AdvsC13 == {"exact", "kbd", "sysexit", "cancel"}
 ConfigsC13 ==
-    { [Base EXCEPT !.maxAtt = 3, !.rc = TRUE, !.abort = ab, !.handler = ha, !.bsleep = bs] :
-        ab \in BOOLEAN, ha \in BOOLEAN, bs \in BOOLEAN }
+    { [Base EXCEPT !.maxAtt = 3, !.rc = TRUE, !.abort = ab, !.handler = ha, !.bsleep = bs, !.hooks = hk] :
+        ab \in BOOLEAN, ha \in BOOLEAN, bs \in BOOLEAN, hk \in BOOLEAN }
 
 \* ---- C16: sleep-handler protocol ------------------------------------------------
 OutsC16 == {OkOut, Out("exc", T, None), Out("res", T, None)}
@@ -265,7 +266,8 @@ ConfigsFull ==
     { [Base EXCEPT !.maxAtt = ma, !.rc = TRUE, !.maxUnk = mu, !.D = d,
                    !.lim = [NoLim EXCEPT ![T] = lt],
                    !.hasDefault = st[1], !.strat = st[2], !.legacy = st[3],
-                   !.budget = bu, !.bW = 3, !.handler = ha, !.bsleep = bs, !.abort = ab, !.opname = op] :
+                   !.budget = bu, !.bW = 3, !.handler = ha, !.bsleep = bs, !.abort = ab, !.opname = op,
+                   !.hooks = bs] :
         ma \in {2, 3, 4}, lt \in {None, 1}, mu \in {None, 1}, d \in {3, 6, Inf},
         st \in {<<TRUE, {}, {}>>, <<TRUE, {T}, {"default"}>>, <<FALSE, {T, U, P}, {U}>>},
         bu \in {None, 1, 2}, ha \in BOOLEAN, bs \in BOOLEAN, ab \in BOOLEAN, op \in BOOLEAN }
